@@ -189,3 +189,32 @@ def zero_crossings_unbounded(V, keep_adj):
         # functions as instantiation hints; z3 does not find them within budget, so completeness is covered by the bounded
         # membership clauses of `get_zero_crossings_array_indices` above and is NOT claimed unbounded.
         out.unchanged('x', x)
+
+
+@unit('C12', 'get_switched_peak_array_indices/tol', functions=[PK + 'get_switched_peak_array_indices'], modes=('bounded',),
+      sizes=dict(n=[2, 3, 4]), thorough_sizes=dict(n=[2, 3, 4, 5]))
+def switched_tol(V):
+    st = {}
+
+    def setup():
+        n = V.size('n', 2)
+        x = V.array('x', n)
+        V.assume(T.sor(*[T.sne(x[k], x[k + 1]) for k in range(n - 1)]))
+        tol = V.real('tol')
+        V.assume(tol > 0)
+        st.update(n=n, x=x)
+        return dict(values=x, tol=tol)
+    f = V.itp.get_function(PK + 'get_switched_peak_array_indices')
+    for out in V.run(PK + 'get_switched_peak_array_indices', setup):
+        if not out.no_raise():
+            continue
+        n, x = st['n'], st['x']
+        sp = concrete_indices(out.result)
+        out.prove('returns-index-array', sp is not None)
+        if sp is None:
+            continue
+        out.prove('strictly-ascending-with-tolerance', all(a < b for a, b in zip(sp, sp[1:])))
+        sp0 = concrete_indices(V.itp.call(f, [x], {}))
+        # KNOWN FINDING K5 (known_findings.json): merging excursions under a tolerance can report the largest sample of a
+        # merged group that is not a zero-tolerance switched peak
+        out.prove('subsequence-of-zero-tolerance-switched-peaks', all(a in sp0 for a in sp))
